@@ -29,7 +29,7 @@ type C12Case struct {
 var _ = Register("C12", func() interface{} { return new(C12Case) }, func(c interface{}) string { return c12Oracle(c.(*C12Case)) })
 
 var c12Decl = &GenCfg{Depth: 2, Fanout: 2, MaxOpts: 4, MaxGroups: 2, NestGroups: 2, Kinds: append(append([]Kind{}, AllArgKinds...), KBool, KBoolSlice, KBoolPtr, KFuncS),
-	Ns: true, Req: 0, Defaults: true, Hidden: true, Desc: true, Bases: true, Aliases: true, SubOpt: 100, NonASCII: true, CmdPct: 60}
+	Ns: true, Req: 0, Defaults: true, OptArg: true, Hidden: true, Desc: true, Bases: true, Aliases: true, SubOpt: 100, NonASCII: true, CmdPct: 60}
 
 var c12Strings = []string{"", " ", " lead", "trail ", "\tlead", "\"quoted\"", "\"half", "half\"", "\"", ";semi", "#hash", "a=b", "=", "[sec]", "\x00", "line\nbreak", "cr\rx", "tab\tx",
 	"é中", "\xff\xfe", "a\\b", "a\\\"b", "'", "k:v", ":", " nbsp", " ls", "x\u0085", "\\n", "true", "0", "; x = y", "value with  two  spaces"}
@@ -57,6 +57,9 @@ func c12ElemText(t *rapid.T, o *OptInfo) string {
 		if kk == KString {
 			// keys per the property's quantifier: non-empty, no ':', no surrounding blanks
 			key = rapid.SampledFrom([]string{"k", "key", "a b", "é", "K2", "x=y", "semi;", "#h", "[b]", "q\"q"}).Draw(t, "mapKey")
+		} else if kk == KFloat64 {
+			// (a NaN key can never be looked up again, not even by the program itself)
+			key = rapid.SampledFrom([]string{"1.5", "2", "0.25", "-3", "10", "1e3", "-0.5"}).Draw(t, "floatKey")
 		} else {
 			key = genValidText(t, kk, o.Base)
 		}
